@@ -161,7 +161,7 @@ class Result:
 
 # ------------------------------------------------------------------------------------------ core engine
 CORE_CLASSES = {
-    "C01": ["reuse", "mix", "ready", "disable", "timers"],
+    "C01": ["reuse", "mix", "ready", "disable", "timers", "life"],
     "C03": ["pings", "pings", "disable"],
     "C04": ["chans", "chans", "mix"],
     "C10": ["streams", "execs", "execs", "mix"],
